@@ -82,6 +82,10 @@ def run(self):
     reqs = list(c.requires) + ([] if is_init else self.invariants_of(st))
     for r in reqs:
         st.assume(self.spec_truth(r, st))
+    if c.yield_seq:
+        if not isinstance(c.returns, Seq):
+            raise ContractError("yield_seq needs returns=Seq(elt)")
+        st.ghost["yielded"] = Val(c.returns, z3.Empty(c.returns.sort()), parts=("items", []))
     self.entry = State(dict(st.env), dict(st.heap), list(st.pc), st.next_ref, dict(st.ghost), {})
     self.old_st = self.entry
     self.covers.append((f"{c.qual}/cover.requires", list(st.pc)))
@@ -123,7 +127,9 @@ def check_exit(self, o):
     # normal exit
     self.covers.append((f"{c.qual}/exit.cover", list(st.pc)))
     res = o.value if o.kind == "return" and o.value is not None else none_val()
-    if c.returns is not None and c.returns != NoneT and not c.yields and not self.is_generator:
+    if c.yield_seq:
+        res = st.ghost["yielded"]
+    elif c.returns is not None and c.returns != NoneT and not c.yields and not self.is_generator:
         res = self.coerce(self.iter_to_val(self.guess_tuple(res, st) if isinstance(res, PyTuple)
                                            and not isinstance(c.returns, (Seq, Tup, Opt)) else res, c.returns, st),
                           c.returns, st)
@@ -359,6 +365,16 @@ def st_Expr(self, s, st):
 def do_yield(self, node, val, st):
     self.yield_sites += 1
     sid = self.site(node)
+    if self.c.yield_seq and self.cur_fn == self.c.qual:
+        it = self.concretise(val, self.c.returns.elt, st)
+        cur = st.ghost["yielded"]
+        st.ghost = dict(st.ghost)
+        if cur.parts and cur.parts[0] == "items" and len(cur.parts[1]) < 6:
+            st.ghost["yielded"] = self.seq_of_items(cur.parts[1] + [it], self.c.returns)
+        else:
+            st.ghost["yielded"] = Val(self.c.returns, z3.Concat(cur.z, z3.Unit(it.z)),
+                                      parts=("concat", cur, self.seq_of_items([it], self.c.returns)))
+        return
     if not self.c.yields:
         return
     want = self.c.returns.elt if isinstance(self.c.returns, Seq) else None
@@ -393,6 +409,13 @@ def st_Assign(self, s, st):
     hint = None
     if len(s.targets) == 1 and isinstance(s.targets[0], ast.Name) and self.cur_contract:
         hint = self.cur_contract.locals.get(s.targets[0].id)
+    elif len(s.targets) == 1 and isinstance(s.targets[0], ast.Attribute):
+        try:
+            obj, _ = self.ev1(s.targets[0].value, st)
+            if isinstance(obj, Val) and isinstance(obj.t, Obj):
+                hint = self.reg.field_type(obj.t.cls, s.targets[0].attr)
+        except Untranslatable:
+            hint = None
     saved = getattr(self, "expect_type", None)
     self.expect_type = hint
     try:
@@ -715,9 +738,8 @@ def exec_loop(self, node, st, iterable):
                 h.env[n] = self.fresh_of_type(hint, h, n)
             else:
                 h.env[n] = self.fresh_of_type(cur.t, h, n)
-    for g in list(h.ghost):
-        if g in (spec.ghost_vars if hasattr(spec, "ghost_vars") else ()):
-            h.ghost[g] = self.fresh_of_type(h.ghost[g].t, h, g)
+    if "yielded" in h.ghost and any(isinstance(x, (ast.Yield, ast.YieldFrom)) for b in body_nodes for x in ast.walk(b)):
+        h.ghost["yielded"] = self.fresh_of_type(h.ghost["yielded"].t, h, "yielded")
     heap_mods = spec.modifies
     if heap_mods is None:
         written = self.dry_run_written_keys(node, h, is_for, view if is_for else None, idx_name)
